@@ -144,6 +144,17 @@ def run_c20(ctx):
     ctx.absorb_reports(reports, binary=ctx.last_binary, outs=ctx.last_outs)
 
 
+def run_c18(ctx):
+    binary = layoutmon()
+    count = 3_000 if ctx.quick else 200_000
+    reports = ctx.run_layoutmon(binary, "resolver", NS, lambda s: ["--count", count], 900 if ctx.quick else 5400)
+    ctx.subruns.append({"engine": "layoutmon resolver", "shards": NS, "differential_histories_per_shard": count,
+                        "synthetic_tables": ["32-bit target", "odd sizes and alignments", "padded and doubly aligned"],
+                        "entry_points": ["typed", "typed allow-uninit", "dynamic (3 spellings)", "override (any subset of fields)", "copy"],
+                        "standard_table": "every member of add_std_types (418) + custom registrations, 4 spellings each, before and after the JSON round trip; unregistered type must not be answered"})
+    ctx.absorb_reports(reports, binary=ctx.last_binary, outs=ctx.last_outs)
+
+
 ASSUME_A = ["the reference model in harness/layoutmon/src/hist.rs states the builder contract correctly",
             "histories are finite samples (plus a complete small-scope sweep where stated); nothing is claimed beyond them",
             "alignments are powers of two between 1 and 16, as in the property's quantifier"]
@@ -159,6 +170,8 @@ CHECKS = {
             "rule": "hostile request sequences (name pool of 2..6, removal of live / pending / stale / never-issued / twice-removed ids, repeated closes, unclosed endings) on the native and the generic builder, compared with the reference model after every request; non-trivial = at least one request was rejected and at least one variant exists"},
     "C13": {"run": run_c13, "replay": replay_history, "level": "exploration", "assumptions": ASSUME_A,
             "rule": "every history of the C01 workload is built, displayed and measured; generate() runs for 4 fragment selections on a digest-selected subset; non-trivial = definition built and (has an orphan datum, a zero-size datum, at least 3 variants, or was generated); the compile half compiles sampled modules with every fragment selection"},
+    "C18": {"run": run_c18, "replay": None, "level": "exploration", "assumptions": ASSUME_A,
+            "rule": "differential histories: the same requests go (A) through the typed / allow-uninit / dynamic / override / copy entry points of a builder whose resolver is a synthetic table that disagrees with the host, and (B) through explicit numbers on a host-resolver builder; attached type information after every add and all offsets at the end must be equal; plus the complete standard table (every member, 4 spellings, JSON round trip); non-trivial = the history uses at least 2 different entry points"},
     "C19": {"run": run_c19, "replay": replay_history, "level": "exploration", "assumptions": ASSUME_A,
             "rule": "each history is replayed twice in one process (allocator noise in between) and in three separately started processes (one perturbed); offsets, Display text, capacity and the generated text of 4 fragment selections are compared; non-trivial = at least 2 variants"},
     "C20": {"run": run_c20, "replay": replay_history, "level": "exploration", "assumptions": ASSUME_A,
